@@ -18,24 +18,26 @@ def trees_case(ctx, idx, rng):
     trees, ref = [], {}
     shapes = []
     zeros = False
+    pool = gen.OID_POOLS[int(rng.integers(0, len(gen.OID_POOLS)))]
+    oid_id = 0 if pool is None else int(pool[0])
     for _ in range(ntree):
         ist = int(rng.integers(0, L))
         pz = float(rng.choice([0.0, 0.0, 0.25, 0.6]))
-        root, poly = gen.rand_tree(rng, L - ist, nops=int(rng.integers(1, 4)), pleaf=float(rng.choice([0.1, 0.3, 0.5])), maxch=int(rng.integers(1, 4)), pzero=pz)
+        root, poly = gen.rand_tree(rng, L - ist, nops=int(rng.integers(1, 4)), pleaf=float(rng.choice([0.1, 0.3, 0.5])), maxch=int(rng.integers(1, 4)), pzero=pz, pool=pool)
         zeros = zeros or pz > 0
         t = ptn.OpTree(root, ist)
         trees.append(t)
         lens = {len(w) for w in poly}
         shapes.append(('full' if max(lens) == L - ist else 'short') + ('-ragged' if len(lens) > 1 else ''))
         for w, c in poly.items():
-            full = (0,) * ist + w + (0,) * (L - ist - len(w))
+            full = (oid_id,) * ist + w + (oid_id,) * (L - ist - len(w))
             ref[full] = ref.get(full, 0) + c
     ref = refs.poly_clean(ref)
-    ctx.case(('trees', f'L{min(L, 4)}', f'n{ntree}', 'zero-couplings' if zeros else 'nonzero-couplings') + tuple(sorted(set(shapes))), sample={'L': L, 'trees': [(t.istart, tree_dump(t.root)) for t in trees][:2]},
+    ctx.case(('trees', f'L{min(L, 4)}', f'n{ntree}', 'zero-couplings' if zeros else 'nonzero-couplings', 'ids-default' if pool is None else f'ids{pool}') + tuple(sorted(set(shapes))), sample={'L': L, 'trees': [(t.istart, tree_dump(t.root)) for t in trees][:2]},
              info={'L': L, 'trees': [(t.istart, tree_dump(t.root)) for t in trees]})
     detail = ctx.cur_info
     dg = monitor.digest([(t.istart, tree_dump(t.root)) for t in trees])
-    g = ptn.OpGraph.from_optrees(trees, L, 0)
+    g = ptn.OpGraph.from_optrees(trees, L, oid_id)
     ctx.ok('trees.inputs-unchanged', monitor.digest([(t.istart, tree_dump(t.root)) for t in trees]) == dg, 'from_optrees modified a tree', detail)
     st = refs.graph_structure_ok(g)
     ctx.ok('trees.graph-structure', st is None, str(st), detail)
@@ -48,8 +50,9 @@ def trees_case(ctx, idx, rng):
     # dense meanings under a random operator map with identity -> identity matrix
     d = 2
     if L <= 6:
-        opmap = {k: rng.normal(size=(d, d)) + 1j * rng.normal(size=(d, d)) for k in range(1, 4)}
-        opmap[0] = np.identity(d)
+        ids = list(range(0, 4)) if pool is None else [int(x) for x in pool]
+        opmap = {k: rng.normal(size=(d, d)) + 1j * rng.normal(size=(d, d)) for k in ids}
+        opmap[oid_id] = np.identity(d)
         want = refs.poly_dense(ref, L, opmap, d)
         sc = max(np.linalg.norm(want), 1.0)
         for direction in (1, 0):
@@ -67,7 +70,7 @@ def trees_case(ctx, idx, rng):
         _, tp = _tree_poly(t.root)
         tw = {}
         for w, c in tp.items():
-            full = w + (0,) * (h - len(w))
+            full = w + (oid_id,) * (h - len(w))
             tw[full] = tw.get(full, 0) + c
         Mt = np.asarray(t.as_matrix(opmap))
         wt = refs.poly_dense(tw, h, opmap, d)
